@@ -50,6 +50,8 @@ theorem reparse_covers_print_partial (d d' : IDoc) (h : parseDoc (printDoc d) = 
     | nt n c' hd' =>
       split at h
       · cases h
+      split at h
+      · cases h
       · next d2 hd2 =>
         split at h
         · cases h
